@@ -125,6 +125,7 @@ theorem step_countExact (s : State) (op : Op) (h : CountExact s) : CountExact (s
     have hA := addAddress_core s t
     frame_core h
   | a64Abs k t => simp only [step]; unfold a64RelAbs; frame_core h
+  | memAbs k a t => simp only [step]; unfold x86MemAbs; frame_core h
 
 theorem run_countExact (s : State) (ops : List Op) (h : CountExact s) : CountExact (run s ops) := by
   induction ops generalizing s with
@@ -313,6 +314,7 @@ theorem step_fixupsWF (s : State) (op : Op) (h : FixupsWF s) : FixupsWF (step s 
   | relocate b => simp only [step]; unfold relocate; frame_wf h
   | jmpAbs k opt t => simp only [step]; unfold x86JmpAbs emitJmpCallRel; frame_wf h
   | a64Abs k t => simp only [step]; unfold a64RelAbs; frame_wf h
+  | memAbs k a t => simp only [step]; unfold x86MemAbs; frame_wf h
 
 /-- **C03 (no fixup is ever orphaned).** For every program: each fixup on the cross-section list names a bound label, so
 `resolve_cross_section_fixups` can evaluate every one of them (on the pinned tree a reference to a label already bound
